@@ -51,6 +51,10 @@ def gen_cb(rng: Any, ids: list[int], depth: int, allow_service: bool, p_raise: f
         cb["pass_exception"] = rng.random() < 0.5
     if route == "ctxteardown":
         cb["pass_exception"] = True
+        # what the decorated function is called with: nothing, a *different* Context (the enclosing one when nested, else an
+        # unrelated one) as first argument, or the same as a method's second argument - the teardown belongs to the context
+        # that is current at the call, whatever is passed
+        cb["call_args"] = rng.choice(["none", "none", "other_ctx", "method_other_ctx", "kw_other_ctx"])
     if kind != "sync":
         for _ in range(rng.randint(0, 2)):
             cb["steps"].append(rng.choice([["yield", rng.randint(1, 3)], ["sleep", rng.choice([0.5, 1, 2])]]))
@@ -138,6 +142,9 @@ class Run:
         self.host_task: Any = None
         self.current_ok = True
         self.loop_crash: BaseException | None = None
+        self.outer_ctx: Any = None
+        self.unrelated_ctx: Any = None
+        self.other_ctx_calls = 0
 
     # ---- probes -------------------------------------------------------------------------
 
@@ -298,12 +305,30 @@ class Run:
             probe = self.make_probe(cb)
 
             @context_teardown
-            async def gen() -> Any:
+            async def gen(*args: Any, **kwargs: Any) -> Any:
                 run.trace.log("setup", cid)
                 exc = yield
                 await probe(exc)
 
-            await gen()
+            class Holder:
+                @context_teardown
+                async def gen(self, other: Any) -> Any:
+                    run.trace.log("setup", cid)
+                    exc = yield
+                    await probe(exc)
+
+            how = cb.get("call_args", "none")
+            other = self.outer_ctx if self.outer_ctx is not None else self.unrelated_ctx
+            if how == "other_ctx":
+                await gen(other)
+            elif how == "method_other_ctx":
+                await Holder().gen(other)
+            elif how == "kw_other_ctx":
+                await gen(ctx=other)
+            else:
+                await gen()
+            if how != "none":
+                self.other_ctx_calls += 1
             self.trace.log("register", cid, route=route, during_teardown=during_teardown)
             return
         # service task: the "callback" is the task's stop sequence
@@ -371,6 +396,7 @@ class Run:
         prog = self.prog
         driver = prog["driver"]
         ctx = self.ctx = Context()
+        self.unrelated_ctx = Context()  # never entered; only ever handed to @context_teardown functions as an argument
 
         async def guarded_body() -> None:
             try:
@@ -449,7 +475,7 @@ class Run:
             with CancelScope() as scope:
                 self.scope = scope
                 if prog["nested"]:
-                    async with Context():
+                    async with Context() as self.outer_ctx:
                         await self.drive()
                 else:
                     await self.drive()
@@ -663,6 +689,8 @@ def features(run: Run) -> dict[str, int]:
             inc(f"callback_form_{byid[cid]['form']}")
     if any(byid[cid]["route"] == "resource" and byid[cid].get("ntypes", 0) > 1 for cid in order):
         inc("resource_route_multi_type")
+    if run.other_ctx_calls:
+        inc("ctxteardown_called_with_another_context", run.other_ctx_calls)
     if len(raised_ids) >= 2:
         inc("programs_with_2plus_raising")
     if any(byid[cid]["raises"] == "RERAISE" and cid in run.raised for cid in order):
